@@ -29,6 +29,8 @@ REG = {
                 text="Generated programs x compilers x DWARF versions x binary kinds x subsets of the information-preserving abidw options; the ABIXML must compare equal to the binary both ways; exploration only.", note=_T1),
     "C04": dict(engine="progfuzz", technique="property-based testing (Hypothesis programs + metacharacter injection; independent expat parser and referential-integrity oracle)",
                 text="Generated programs with symbol names, SONAME and directories carrying XML metacharacters; abidw output parsed by an independent XML parser, every referenced type id defined exactly once, every referenced symbol listed, injected names recovered; exploration only.", note=_T1),
+    "C07": dict(engine="progfuzz", technique="property-based testing (Hypothesis program pairs with one documented-harmless mutation; expected verdict: silent by default, listed with --harmless)",
+                text="Generated (P, H(P)) pairs over the five documented harmless changes; default run must exit 0, --harmless must set the change bit and name the change; one recorded deviation (inline non-virtual member function) is a known finding; exploration only.", note=_T1),
     "C08": dict(engine="progfuzz", technique="property-based testing (Hypothesis program pairs x option sets x suppressions + malformed command lines; invariant: exit-status lattice and agreement with the parsed summary)",
                 text="Every generated comparison (16 option sets incl. section-selecting ones, suppressions) and malformed command lines of abidiff/abicompat/abipkgdiff: status is a combination of documented bits, 8=>4, 2=>1, and bit 4 <=> the summary lists a net change; exploration only.", note=_T1),
     "C11": dict(engine="progfuzz", technique="property-based testing (Hypothesis program pairs compared in both argument orders; set-equality relation Removed(A,B)=Added(B,A), Changed(A,B)=Changed(B,A))",
